@@ -262,7 +262,11 @@ impl Bus {
             }
             let cl: i64 = label[1..].parse().unwrap_or(-1);
             let j = match ev {
-                TapEvent::Sent(m) => json!({"t": "tap", "cl": cl, "dir": "tx", "m": vcore::trace::msg_json(&mut namer, m)}),
+                TapEvent::Sent(m) => {
+                    // the payload as a u32 if it is one (event and item payloads of the roles are)
+                    let pv: i64 = m.value().and_then(|v| v.deserialize::<u32>().ok()).map(|x| x as i64).unwrap_or(-1);
+                    json!({"t": "tap", "cl": cl, "dir": "tx", "pv": pv, "m": vcore::trace::msg_json(&mut namer, m)})
+                }
                 TapEvent::Received(m) => {
                     // C12: a payload delivered to a client must already be in the encoding epoch of its
                     // negotiated version: converting it to that version must not change it
